@@ -7,7 +7,8 @@ import common, gen, runner, trace, smtlib, extsolve, certify
 from c14 import RichProblem
 
 THEOREMS = ["Osmt.Properties.C13_subst_eval", "Osmt.Properties.C13_subst_equiv", "Osmt.Properties.C13_distinct_expand",
-            "Osmt.Properties.C13_eq_split", "Osmt.Properties.C13_divmod_axioms", "Osmt.Properties.C13_ite_definition", "Osmt.Properties.C13_extension_wf"]
+            "Osmt.Properties.C13_eq_split", "Osmt.Properties.C13_divmod_axioms", "Osmt.Properties.C13_ite_definition", "Osmt.Properties.C13_extension_wf", "Osmt.Properties.C13_flatten_and", "Osmt.Properties.C13_flatten_or",
+            "Osmt.Properties.C13_transitivity_fact_valid"]
 LOGICS = ["QF_BOOL", "QF_LRA", "QF_LIA", "QF_UF", "QF_RDL", "QF_IDL", "QF_LIA", "QF_UFLRA", "QF_LRA", "QF_UF", "QF_UFLIA"]
 
 
